@@ -150,9 +150,20 @@ pub fn check_cancel(sc: &Scenario, tr: &Trace) -> Result<&'static str, Fail> {
         let delivered = !receiver_success_times.is_empty();
         // a transaction that had already declared a fault of its own (and is being cancelled or abandoned for that
         // reason) keeps reporting that condition: the user's cancel did not cause its end
-        let fault_before = [p.from, p.to]
+        // At the peer "before the cancel" means before the first PDU the canceller emitted after the request reached
+        // it: a peer whose own limit expired while the cancel was in flight has begun its own cancellation with its own
+        // condition, the two notices cross and each side may report the other's condition.
+        let t_heard = tr
+            .deliveries
             .iter()
-            .any(|e| tr.inds_of(*e, id).iter().any(|r| r.t <= t_cancel + 2 && matches!(&r.ind, Indication::Fault(_) | Indication::Abandon(_))));
+            .filter(|d| d.1 == peer && tr.dgrams[d.2].from == who && tr.dgrams[d.2].t >= t_cancel && !tr.dgrams[d.2].corrupted)
+            .map(|d| d.0)
+            .min()
+            .unwrap_or(t_cancel);
+        let fault_before = [p.from, p.to].iter().any(|e| {
+            let limit = if *e == peer { t_heard.max(t_cancel) + 2 } else { t_cancel + 2 };
+            tr.inds_of(*e, id).iter().any(|r| r.t <= limit && matches!(&r.ind, Indication::Fault(_) | Indication::Abandon(_)))
+        });
         if !finished_before && !delivered && !fault_before && peer_can_hear && peer_started && lossless {
             if !saw_cancel(tr, who, id) {
                 return Err(fail(tr, "cancel-not-reported:canceller", format!("the user at entity {who} who cancelled never saw the CancelReceived condition")));
